@@ -47,6 +47,9 @@ def correspond(ctx):
     _pool.explore(ctx, "C01", per_spec=10 if not ctx.thorough else 60, sizes=(4, 11) if not ctx.thorough else (4, 24))
     # strategies with their own selection loops at the end of a run on a larger pool (quotas per cluster / leaf redistributed)
     _pool.explore(ctx, "C01", per_spec=30 if not ctx.thorough else 150, sizes=(12, 30), endgame=True, skeleton="B")
+    # the first cycles on a pool of repeated measurements (cold start, duplicates, small batches)
+    _pool.explore(ctx, "C01", per_spec=5 if not ctx.thorough else 30, sizes=(6, 14), colddup=True)
+    _pool.explore(ctx, "C01", per_spec=40 if not ctx.thorough else 200, sizes=(6, 14), colddup=True, skeleton="B")
     _zoo_pool.run(ctx, "C01", [ctx.seed] if not ctx.thorough else [ctx.seed + 31 * k for k in range(4)], per_case_modes=None if ctx.thorough else 2)
 
 
